@@ -16,6 +16,7 @@ EXPLANATION = ("Necessary shape conditions, decided on every path: (R10.1) in ea
                "stream cancels its id once, before it waits -- never from inside the loop that runs until the id is vacant again (a vacant id may already belong to a new listener). Every channel's running_streams_count forwards to the manager, which answers a load of used_streams_count.")
 EXPLANATION += ' R10.2 also requires keep_streams_running[new id] to be set to true for the id just taken.'
 EXPLANATION += " R10.1 also requires the channel's own consume -- which the drain loop asks -- to ask its queue on every path; (R10.7) cursor discipline of the live-list rebuild: the first entry lands on index 0, every entry store is paired with exactly one cursor bump, and the sentinel padding starts at the first unwritten index (cursor+1 when the bump precedes the store, cursor when it follows) -- no stale id behind the last live entry, no live entry overwritten."
+EXPLANATION += ' R10.6 requires the sort of the vacant snapshot on every path (not only when the ring wraps or MAX_STREAMS is large); (R10.8) the fan-outs walk the live list only (C03 R03.3).'
 ASSUMPTIONS = ["the rebuild algorithm inside sync_vacant_and_used_streams (live list = complement of the vacant FIFO) is covered by the unit tests' sequential histories, not re-proved here",
                "'all of them if it keeps polling' is the delivery / wake-up behaviour of C03 / C04"]
 
